@@ -82,6 +82,17 @@ func (s *jobStats) add(plugin, class string, n int64) {
 	s.mu.Unlock()
 }
 
+func (s *jobStats) max(plugin, class string, n int64) {
+	s.mu.Lock()
+	if s.observed[plugin] == nil {
+		s.observed[plugin] = map[string]int64{}
+	}
+	if n > s.observed[plugin][class] {
+		s.observed[plugin][class] = n
+	}
+	s.mu.Unlock()
+}
+
 func jsonValid(s string) bool { return json.Valid([]byte(s)) }
 
 func splitPaths(fs []string) [][]string {
@@ -554,6 +565,9 @@ func (rn *runner) runJob(j *job) {
 				rn.accepted(j)
 			}
 			rn.account(j, out)
+			if os.Getenv("C13_TIMING") != "" {
+				fmt.Printf("timing: %s/%s part %d: %d events, started after %d ms, total %d ms, child wall %.0f ms\n", j.name, j.cfg.Label, j.part, len(cur), out.StartedMs, out.TotalMs, r.WallS*1000)
+			}
 			if len(out.Invalid) > 0 {
 				rn.handleInvalid(j, out.Invalid, cur, seenInvalid)
 			}
@@ -706,6 +720,16 @@ func ocString(oc byte) string {
 	return strings.Join(s, "+")
 }
 
+// slowStart: hash with the built-in normalizer patterns.
+func slowStart(cf cfgSpec) bool {
+	for _, a := range cf.Actions {
+		if strings.Contains(a, `"normalize"`) && !strings.Contains(a, `"builtin_patterns":"no"`) {
+			return true
+		}
+	}
+	return false
+}
+
 func buildJobs(c *core.Ctx) []*job {
 	nRandom := c.N(320, 9000)
 	nVariants := c.N(1, 5)
@@ -780,10 +804,12 @@ func buildJobs(c *core.Ctx) []*job {
 }
 
 func run(c *core.Ctx) {
-	c.SetRule("cases = events; for every (plugin, configuration class) a fixed directed list (each referenced field x each hostile value class alone on a benign event, every dictionary string, non-object roots) followed by seeded random events biased to the referenced field names and to the plugin's dictionary; an evaluated case is an event that entered the tested action in a real pipeline (or was refused nowhere); non-trivial/distinct = (plugin, configuration class, structural shape of the event = root kind + value class of every referenced field, observed outcome set: output/dropped/held/changed/children)")
 	c.Assume("the pipeline's JSON decoder (insane-json) is trusted to hand the action the document the generator wrote: the generator only emits texts accepted by encoding/json.Valid, so an invalid document at the output is never input laxity (C12)")
 	c.Assume("encoding/json (Valid + Decode with UseNumber) is the reference for 'well-formed JSON that re-parses'; it does not require valid UTF-8 inside strings")
 	c.Assume("k8s meta fields (k8s_pod, k8s_namespace, k8s_container, k8s_container_id) come from the file name through the input's meta templates, never from event content: the harness input always supplies them for the k8s multiline action")
+	c.SetRule("cases = events; for every (plugin, configuration class) a fixed directed list (each referenced field x each hostile value class alone on a benign event, every dictionary string, non-object roots) followed by seeded random events biased to the referenced field names and to the plugin's dictionary; an evaluated case is an event that entered the tested action in a real pipeline (or was refused nowhere); non-trivial/distinct = (plugin, configuration class, structural shape of the event = root kind + value class of every referenced field, observed outcome set: output/dropped/held/changed/children). Concurrency clause: the same lists once more per configuration through a one-processor and an eight-processor pipeline (eight sources, one feeder each) in one child; distinct = (plugin, configuration, compared or not, processors overlapped inside the action or not). Chain clause: every ordered pair of the actions that store bytes in event.Buf, every other covered stateless action between a Buf writer and json_encode, k8s-multiline in front of json_encode / flatten, a few triples and seeded chains, each over one shared event list through a 12-event pool, compared per event with the step-by-step evaluation; distinct = (chain, event shape) of events equal to the reference")
+	c.Assume("concurrency clause: for a plugin whose result does not depend on the clock, on counters shared by streams or on time-outs, the output of an event is a function of the events of its own stream in their order; both phases feed every stream in the same order, so the outputs must be equal as JSON documents (encoding/json with UseNumber; the order of members is not significant: every processor's modify fixes its own order of operations at Start, the syslog / nginx decoders add members in Go map order). Not compared (crash and validity only): set_time, throttle, cardinality, join, join_template, k8s-multiline, parse_es, every hold-capable configuration, modify/trim-filters (its operations read a member another one rewrites)")
+	c.Assume("chain clause: the reference for a chain is the composition of its actions run one at a time, each in its own one-action pipeline on the encoded (deep-copied) output of the previous one; events for which some intermediate document is not valid JSON or is refused by the pipeline's decoder have no reference and are skipped; equality is equality of the decoded documents (encoding/json, UseNumber)")
 	c.Assume("a configuration that the plugin itself refuses (error from SetupActions, Fatal/panic inside Start before the first event) is discarded; hand-written table entries must all be accepted")
 
 	if c.ReplayArg() != "" {
@@ -818,6 +844,13 @@ func run(c *core.Ctx) {
 		if jobs[b].cfg.Stateful {
 			wb *= 3
 		}
+		// hash compiles its built-in patterns for seconds in every child: start those first
+		if slowStart(jobs[a].cfg) {
+			wa += 1 << 20
+		}
+		if slowStart(jobs[b].cfg) {
+			wb += 1 << 20
+		}
 		return wa > wb
 	})
 	rn := &runner{c: c, stats: &jobStats{observed: map[string]map[string]int64{}}}
@@ -829,19 +862,98 @@ func run(c *core.Ctx) {
 		workers = v
 	}
 	only := os.Getenv("C13_ONLY") // debugging aid: plugin name filter
-	core.ParallelFor(len(jobs), workers, func(i int) {
-		if only != "" && !strings.Contains(jobs[i].name+"/"+jobs[i].cfg.Label, only) {
-			if !jobs[i].random {
-				jobs[i].shared.directed.Done()
+	// the concurrency clause (par.go) and the chain clause (chainref.go) share the workers
+	var parJobs []*parJob
+	var chainJobs []*chainJob
+	if os.Getenv("C13_NO_PAR") == "" {
+		parJobs = buildParJobs(c)
+		sort.SliceStable(parJobs, func(a, b int) bool { return parJobs[a].normalize && !parJobs[b].normalize })
+	}
+	if os.Getenv("C13_NO_CHAINS") == "" {
+		chainJobs = buildChainJobs(c)
+	}
+	for _, pj := range parJobs {
+		for _, e := range pj.events {
+			if !json.Valid(e.Raw) {
+				c.Fatal("generator emitted an invalid text for the concurrency clause: %s", evStr(e.Raw))
+				return
 			}
-			return
 		}
-		t0 := time.Now()
-		rn.runJob(jobs[i])
-		if d := time.Since(t0); d > 20*time.Second {
-			fmt.Printf("note: slow job %s/%s part %d: %.1fs (%d events)\n", jobs[i].name, jobs[i].cfg.Label, jobs[i].part, d.Seconds(), len(jobs[i].idxs))
+	}
+	for _, cj := range chainJobs {
+		for _, e := range cj.events.evs {
+			if !json.Valid(e.Raw) {
+				c.Fatal("generator emitted an invalid text for the chain clause: %s", evStr(e.Raw))
+				return
+			}
 		}
-	})
+	}
+	cr := &chainRef{memo: map[string]*stageResult{}}
+	// one task list for the three clauses. Order: the slow starters (hash compiles
+	// its built-in patterns for seconds in every child), the hold-capable
+	// concurrency jobs (they wait for time-outs), the main clause in its own order
+	// (directed parts before random parts), the other concurrency jobs, the chains.
+	var tasks []func()
+	mainTask := func(j *job) func() {
+		return func() {
+			if only != "" && !strings.Contains(j.name+"/"+j.cfg.Label, only) {
+				if !j.random {
+					j.shared.directed.Done()
+				}
+				return
+			}
+			t0 := time.Now()
+			rn.runJob(j)
+			if d := time.Since(t0); d > 20*time.Second {
+				fmt.Printf("note: slow job %s/%s part %d: %.1fs (%d events)\n", j.name, j.cfg.Label, j.part, d.Seconds(), len(j.idxs))
+			}
+		}
+	}
+	timed := func(what string, fn func()) func() {
+		return func() {
+			if only != "" && !strings.Contains(what, only) {
+				return
+			}
+			t0 := time.Now()
+			fn()
+			if d := time.Since(t0); d > 20*time.Second {
+				fmt.Printf("note: slow job %s: %.1fs\n", what, d.Seconds())
+			}
+		}
+	}
+	parTask := func(pj *parJob) func() {
+		return timed("par "+pj.name+"/"+pj.cfg.Label, func() { rn.runPar(pj) })
+	}
+	for _, pj := range parJobs {
+		if pj.normalize {
+			tasks = append(tasks, parTask(pj))
+		}
+	}
+	for _, j := range jobs { // sorted: the slow starters lead
+		if !j.random && slowStart(j.cfg) {
+			tasks = append(tasks, mainTask(j))
+		}
+	}
+	for _, pj := range parJobs {
+		if !pj.normalize && pj.cfg.Stateful {
+			tasks = append(tasks, parTask(pj))
+		}
+	}
+	for _, j := range jobs {
+		if !(!j.random && slowStart(j.cfg)) {
+			tasks = append(tasks, mainTask(j))
+		}
+	}
+	for _, pj := range parJobs {
+		if !pj.normalize && !pj.cfg.Stateful {
+			tasks = append(tasks, parTask(pj))
+		}
+	}
+	for _, cj := range chainJobs {
+		cj := cj
+		tasks = append(tasks, timed("chainref "+cj.label, func() { rn.runChain(cr, cj) }))
+	}
+	core.ParallelFor(len(tasks), workers, func(i int) { tasks[i]() })
 
 	// per plugin: what was observed; a run that never saw an expected behaviour is void
 	perPlugin := map[string]any{}
@@ -862,12 +974,28 @@ func run(c *core.Ctx) {
 			c.Fatal("plugin %s: only %d of %d hand-written configurations ran", ps.Name, obs["configs"], len(ps.Configs))
 		}
 	}
+	if only == "" && len(parJobs) > 0 && c.Violations() == 0 {
+		if c.Counter("par_jobs_with_processors_overlapping_in_action") == 0 {
+			c.Fatal("concurrency clause: no job ever had two processors inside the tested action at once")
+		}
+		if c.Counter("par_outputs_compared_with_single_processor") == 0 {
+			c.Fatal("concurrency clause: no output was compared with the one-processor pipeline")
+		}
+	}
+	if only == "" && len(chainJobs) > 0 && c.Violations() == 0 {
+		if c.Counter("chain_outputs_equal_to_reference") == 0 || c.Counter("chain_outputs_changed_by_the_chain") == 0 {
+			c.Fatal("chain clause: no chain output was compared with the step-by-step reference")
+		}
+	}
 	c.Extra("per_plugin", perPlugin)
 	c.Extra("child_jobs", len(jobs))
+	c.Extra("par_jobs", len(parJobs))
+	c.Extra("chain_jobs", len(chainJobs))
 }
 
 func main() {
 	registerHead()
 	core.RegisterChild("pipe", childMain)
+	core.RegisterChild("par", parMain)
 	core.Main("C13", "exploration", run)
 }
